@@ -104,4 +104,33 @@ theorem C03_keys_values (raw : List (Key × Nat)) :
     (Wrap.intoByteKeys raw).zip (Wrap.intoValues raw) = Wrap.intoByteVec raw :=
   ⟨(Wrap.keys_values_zip raw).1, (Wrap.intoByteKeys_intoValues_zip raw).1⟩
 
+
+/-- END TO END at the wrapper level: `Map::range()` with any setters, over the BYTES of the file a
+map builder writes, yields exactly the inserted entries within the bounds — and `Set::range()` their keys -/
+theorem C03_map_range_file (rows cols ty : Nat) (hty : ty < 2^64) (kvs : KV) (hs : SortedKV kvs)
+    (hv : ∀ kv ∈ kvs, kv.2 < 2^64) (hn : kvs.length < 2^64) :
+    ∃ s bytes, insertAll (BState.new rows cols) kvs = .ok s ∧ s.fileBytes ty = .ok bytes ∧
+      (bytes.length < 2^64 →
+        ∃ m, fstNew (Src.ofList bytes) = .ok m ∧
+          ∀ rs : RangeSpec, ∃ N, ∀ fuel, N ≤ fuel →
+            Wrap.mapRange (byteAccess 3 (Src.ofList bytes)) m.rootAddr rs fuel =
+              some (kvs.filter fun kv => lowerOK rs.min kv.1 && upperOK rs.max kv.1) ∧
+            Wrap.setRange (byteAccess 3 (Src.ofList bytes)) m.rootAddr rs fuel =
+              some ((kvs.filter fun kv => lowerOK rs.min kv.1 && upperOK rs.max kv.1).map (·.1))) := by
+  obtain ⟨s, bytes, e1, e2, h⟩ := C03_file rows cols ty hty kvs hs hv hn
+  refine ⟨s, bytes, e1, e2, fun hsz => ?_⟩
+  obtain ⟨m, hm, hall⟩ := h hsz
+  refine ⟨m, hm, fun rs => ?_⟩
+  obtain ⟨s0, h0, N, hN⟩ := hall rs.min rs.max
+  refine ⟨N, fun fuel hf => ?_⟩
+  have hq : Wrap.rawQuery (byteAccess 3 (Src.ofList bytes)) autAlways m.rootAddr rs fuel =
+      some ((kvs.filter fun kv => lowerOK rs.min kv.1 && upperOK rs.max kv.1).map
+        fun kv => (kv.1, kv.2, ())) := by
+    simp only [Wrap.rawQuery, h0, hN fuel hf]
+  constructor
+  · simp only [Wrap.mapRange, Wrap.mapSearch, hq, Option.map_some, Wrap.mapStream_eq]
+    exact congrArg some (Wrap.rawStream_triples _ (fun _ => ()))
+  · simp only [Wrap.setRange, Wrap.setSearch, hq, Option.map_some, Wrap.setStream_eq]
+    exact congrArg some (congrArg (List.map (·.1)) (Wrap.rawStream_triples _ (fun _ => ())))
+
 end Fst.Props
